@@ -7,6 +7,7 @@ import XV.Lemmas.ElemStack
 import XV.Lemmas.NsViews
 import XV.Lemmas.WFElemStack
 import XV.Lemmas.NsParse
+import XV.Lemmas.NsBuild
 namespace XV.Props.C06
 open XV.Model.ElemStack XV.Spec.Namespace XV.Gen.ElemStackConsts XV.Lemmas.ElemStack XV.Lemmas.NsViews
 open XV.Model.NsScan XV.Model.Sax2Prefix
@@ -329,5 +330,142 @@ example : (parseDoc true false demoDoc).map normM =
      .se ("u:a", "a", "a") [("", "xmlns", "xmlns"), ("u:b", "x", "p:x"), (xmlnsURI, "p", "xmlns:p")],
      .spm "" "", .se ("u:b", "b", "p:b") [("", "xmlns", "xmlns")], .ee ("u:b", "b", "p:b"), .epm "",
      .ee ("u:a", "a", "a"), .epm "p", .epm ""] := by decide +kernel
+
+
+-- ====================================================================================================== second round
+-- ------------------------------------------------------------------------------------------ lookupPrefix: completeness
+/-- **lookupPrefix is complete on parsed trees.**  If some declared prefix `p` is in scope at the element and bound there to
+    `u` (so it is not shadowed at the element), `lookupPrefix(u)` returns SOME prefix `p'`, and `p'` is bound to `u` in scope.
+    (`p'` need not be `p`: the walk returns the first candidate that passes the re-check at the original element.)
+    The reserved prefixes are excluded: `xml`/`xmlns` are in scope without any declaration attribute to find. -/
+theorem lookupPrefix_complete (rtags : List Tag) (hok : ∀ t ∈ rtags, TagOK t) (u p : String)
+    (hp0 : p ≠ "") (hp1 : p ≠ "xml") (hp2 : p ≠ "xmlns") (hin : inScope (pathOf rtags) p = some u) :
+    ∃ p', XV.Model.DomLookup.lookupPrefix (chainOf rtags) (some u) = some p' ∧ inScope (pathOf rtags) p' = some u :=
+  lookupPrefix_chainOf_complete rtags hok u p hp0 hp1 hp2 hin
+
+/-- **… and on ANY DOM tree** (parsed or built by hand), with `lookupNamespaceURI` at the element as the meaning of "in
+    scope": if the element or an ancestor is named with prefix `p` in namespace `u`, or carries `xmlns:p="u"`, and `p` is
+    not shadowed at the element where the question is asked, the walk answers.  The C++ recursion is mirrored including the
+    `originalElement` re-check: a candidate that fails it does not stop the attribute loop nor the walk to the ancestors —
+    no shape on which the algorithm gives up early exists. -/
+theorem lookupPrefix_complete_any_tree (chain : List XV.Model.DomLookup.DElem) (u : String)
+    (h : ∃ e ∈ chain,
+      (∃ p, e.ns = some u ∧ e.pre = some p ∧ XV.Model.DomLookup.lookupNamespaceURI chain (some p) = some u) ∨
+      (∃ a ∈ e.attrs, isPrefixDeclFor u a = true ∧ XV.Model.DomLookup.lookupNamespaceURI chain (some a.loc) = some u)) :
+    ∃ p', XV.Model.DomLookup.lookupPrefix chain (some u) = some p' ∧
+          XV.Model.DomLookup.lookupNamespaceURI chain (some p') = some u := by
+  obtain ⟨p', hp'⟩ := Option.isSome_iff_exists.mp (lookupPrefixFrom_complete u chain chain h)
+  exact ⟨p', hp', lookupPrefixFrom_sound u chain chain p' hp'⟩
+
+-- ------------------------------------------------------------------------------------------ the DOM node builder
+/-- **build_names.**  For a namespace-well-formed start tag (every prefix it uses is bound; `path'` = the declarations in
+    scope including its own), the element node that the model of `AbstractDOMParser::startElement` creates from what the
+    scanner hands over carries namespaceURI = the Spec's `elemNS`, prefix = the written prefix (null when none),
+    localName = the written local part; and its attribute nodes are, up to the NamedNodeMap's ordering, exactly the Spec's
+    expansions `attrExpansion` (namespaceURI, prefix, localName) of the written attribute names. -/
+theorem build_names {S : Scan} {a : Abs} (h : Rep S a) (hg : a.g = []) (t : Tag) (hok : ItemsOK t.items)
+    (hb : TagBound (a.path ++ [declsOf t.items]) t) :
+    let e := XV.Model.DomLookup.mkElem (startTagNS S t).1 t (startTagNS S t).2.1 (startTagNS S t).2.2.1
+    let path' := a.path ++ [declsOf t.items]
+    e.ns = elemNS path' t.pre ∧ e.pre = XV.Model.DomLookup.nullIfEmpty t.pre ∧ e.loc = t.loc ∧
+    (e.attrs.map (fun x => (x.ns, x.pre, x.loc))).Perm (t.items.map (attrExpansion path')) := by
+  intro e path'
+  have he : e = specElem path' t := (mkElem_eq_specElem h hg t hok hb).1
+  rw [he]
+  exact specElem_names path' t hb.1
+
+/-- **… all the way down a document**: the chain of element nodes built for a path of namespace-well-formed start tags
+    (root first) is the chain the DOM lookup theorems speak about, so `dom_lookup_eq_inScope`, `lookupPrefix_sound`,
+    `lookupPrefix_complete` and `isDefaultNamespace_eq_inScope` hold for the nodes the modelled parser builds. -/
+theorem built_chain_eq_spec (v11 : Bool) (tags : List Tag) (hb : PathBound [] tags) :
+    builtChain (Scan.init v11) [] tags = chainOf tags.reverse := by
+  have := builtChain_eq tags (Scan.init v11) [] (init_rep v11) hb
+  simpa [chainOf] using this
+
+theorem dom_lookup_on_built_nodes (v11 : Bool) (tags : List Tag) (hb : PathBound [] tags)
+    (hok : ∀ t ∈ tags, TagOK t) (sp : Option String) (hsp : sp ≠ some "") :
+    XV.Model.DomLookup.lookupNamespaceURI (builtChain (Scan.init v11) [] tags) sp
+      = inScope (pathOf tags.reverse) (sp.getD "") := by
+  rw [built_chain_eq_spec v11 tags hb]
+  exact lookupNS_chainOf tags.reverse (fun t ht => hok t (List.mem_reverse.mp ht)) sp hsp
+
+-- ------------------------------------------------------------------------------------------ error detection = the Spec
+/-- **below and above the hash threshold**: the duplicate check of the start tag is the quadratic loop for up to
+    `attrDupHashThreshold` attributes and the registry loop above; with the registry as an abstract set of
+    (name, uriId) keys both find the same collisions on every attribute list (hashing/rehashing not modelled). -/
+theorem dup_check_threshold_independent (attrs : List XMLAttr) :
+    dupCheck attrs = dupExpanded attrs ∧ dupRegistry [] attrs = dupExpanded attrs := by
+  refine ⟨dupCheck_eq attrs, ?_⟩
+  rw [dupRegistry_eq]; simp
+
+/-- **error detection at a start tag ⇔ the Spec.**  The code-shaped two-pass start tag (declarations first with the
+    `updateNSMap` checks, `resolvePrefix` for every attribute and for the element, then the duplicate check by either
+    loop) emits an error iff `tagErrors` lists a violated namespace constraint for the tag.
+    Side conditions: the tree describes the tag faithfully (`ItemsOK`); the tag does not repeat a declaration (that is a
+    duplicate attribute, plain well-formedness, outside this model); the declarations of the enclosing elements passed
+    their checks (otherwise the fatal error has already ended the parse). -/
+theorem start_tag_error_iff {S : Scan} {a : Abs} (h : Rep S a) (hg : a.g = []) (t : Tag) (hok : ItemsOK t.items)
+    (hnd : ((declsOf t.items).map (·.pre)).Nodup)
+    (hanc : ∀ l ∈ a.stack, ∀ d ∈ l, declErrors S.xml11 d = []) :
+    (startTagNS S t).2.2.2 = true ↔ tagErrors S.xml11 (a.path ++ [declsOf t.items]) t ≠ [] := by
+  rw [startTag_error_iff h hg t hok hnd hanc]
+  cases hte : tagErrors S.xml11 (a.path ++ [declsOf t.items]) t <;> simp
+
+/-- **the modelled scan reports a namespace error iff the document is not namespace-well-formed** (whole documents, any
+    nesting, attribute counts on both sides of the hash threshold), for trees that describe documents faithfully and do
+    not repeat a declaration inside one tag. -/
+theorem scan_errors_iff_not_wellformed (v11 : Bool) (root : Node) (hok : TreeOK root) (hnd : NoDupDecl root) :
+    scanErrors v11 root = !nsWellFormed v11 root := by
+  have hv : (Scan.init v11).xml11 = v11 := (init_facts v11).2.2.2.2.2.2.2.2.2.2.2.2.2.2.2.2
+  have := scanErrors_eq v11 root hok hnd (Scan.init v11) {} (init_rep v11) rfl hv (by intro l hl; simp at hl)
+  simpa [scanErrors, nsWellFormed, Abs.path] using this
+
+/-- **collision detected ⇔ two attributes share an expanded name** (the Spec-level form of `collision_detected_iff`): for
+    a tag whose prefixes are all bound, in a context where nothing is bound to the xmlns namespace name, the check on
+    (uriId, name) keys over the whole attribute list agrees with the Spec's check on (namespace name, local name) of the
+    ordinary attributes -/
+theorem collision_detected_iff_spec {S : Scan} {a : Abs} (h : Rep S a) (hg : a.g = []) (items : List Item)
+    (hok : ItemsOK items) (hb : ∀ p l, Item.attr p l ∈ items → p ≠ "" → attrNS a.path p ≠ none)
+    (hk1 : ∀ l ∈ a.path, ∀ d ∈ l, d.uri ≠ xmlnsURI) (hnd : ((declsOf items).map (·.pre)).Nodup) :
+    dupCheck (buildAttList S (rawOfItems items)).1 = hasDup (expandedAttrs a.path (attrsOf items)) := by
+  rw [buildAttList_items, dupCheck_eq]
+  exact dup_eq h hg items hok.mem hb hk1 hnd
+
+-- non-vacuity -------------------------------------------------------------------------------------------------------
+-- two prefixes for one namespace, the nearer one shadowed at the inner element:
+--   <r xmlns:q="u"><a xmlns:p="u"><b xmlns:p="v"/></a></r>     (innermost first below)
+def shadowChain : List Tag := [⟨"", "b", [.decl ⟨"p", "v"⟩]⟩, ⟨"", "a", [.decl ⟨"p", "u"⟩]⟩, ⟨"", "r", [.decl ⟨"q", "u"⟩]⟩]
+
+example : (∀ t ∈ shadowChain, TagOK t) := by simp [shadowChain, TagOK, ItemsOK, declsOf]
+/-- at `b` the candidate `p` (declared for "u" on `a`) fails the re-check because `b` re-declares it; the walk goes on and
+    finds `q` on `r`; at `a` it answers `p` -/
+example : inScope (pathOf shadowChain) "q" = some "u" ∧ inScope (pathOf shadowChain) "p" = some "v" ∧
+          XV.Model.DomLookup.lookupPrefix (chainOf shadowChain) (some "u") = some "q" ∧
+          XV.Model.DomLookup.lookupPrefix (chainOf shadowChain.tail) (some "u") = some "p" := by decide +kernel
+example : ∃ p', XV.Model.DomLookup.lookupPrefix (chainOf shadowChain) (some "u") = some p' ∧ inScope (pathOf shadowChain) p' = some "u" :=
+  lookupPrefix_complete shadowChain (by simp [shadowChain, TagOK, ItemsOK, declsOf]) "u" "q" (by decide) (by decide) (by decide)
+    (by decide)
+
+-- <a xmlns:p="u:b"><p:b x="v"/></a>, root first
+def builtDemo : List Tag := [⟨"", "a", [.decl ⟨"p", "u:b"⟩]⟩, ⟨"p", "b", [.attr "" "x"]⟩]
+example : PathBound [] builtDemo := by
+  simp [builtDemo, PathBound, ItemsOK, TagBound, pathOf, levelsOf, declsOf, elemNS, attrNS, inScope, inScopeG, nearest, declOf]
+example : (builtChain (Scan.init false) [] builtDemo).map (fun e => (e.ns, e.pre, e.loc)) =
+            [(some "u:b", some "p", "b"), (none, none, "a")] ∧
+          (builtChain (Scan.init false) [] builtDemo).map (fun e => e.attrs.map (fun x => (x.ns, x.pre, x.loc))) =
+            [[(none, none, "x")], [(some xmlnsURI, some "xmlns", "p")]] := by
+  decide +kernel
+
+-- error detection: one erroneous and one well-formed document; collisions above the hash threshold
+example : NoDupDecl demoDoc := by simp [demoDoc, NoDupDecl, NoDupDeclL, declsOf]
+example : scanErrors false demoDoc = false ∧ nsWellFormed false demoDoc = true := by decide +kernel
+example : scanErrors false (.elem ⟨"", "a", [.decl ⟨"p", "u"⟩, .decl ⟨"q", "u"⟩, .attr "p" "x", .attr "q" "x"]⟩ []) = true ∧
+          scanErrors false (.elem ⟨"zz", "a", []⟩ []) = true ∧
+          scanErrors false (.elem ⟨"", "a", [.decl ⟨"p", ""⟩]⟩ []) = true ∧
+          scanErrors true (.elem ⟨"", "a", [.decl ⟨"p", ""⟩]⟩ []) = false := by decide +kernel
+
+def manyAttrs : List XMLAttr := (List.range 120).map (fun i => ⟨1, "", "n" ++ toString i, "v"⟩)
+example : manyAttrs.length > attrDupHashThreshold := by decide
+example : dupCheck (manyAttrs ++ [⟨1, "", "n7", "v"⟩]) = true ∧ dupCheck manyAttrs = false := by decide +kernel
 
 end XV.Props.C06
